@@ -100,7 +100,7 @@ Proof. split; [exact prose_configs|exact prose_instance]. Qed.
 Print Assumptions C14_prose_hypotheses_hold.
 
 (* ... and for paragraphs in which DELIMITER CHARACTERS STAND WHERE THEY MEAN NOTHING (Proofs/InertProse.v): any number of
-   lines; the joined text has no backslash, backtick or &, no ] directly followed by ( - the document defines no link
+   lines; the joined text has no backslash or backtick, no & or no ; (no character reference can be completed), no ] directly followed by ( - the document defines no link
    references - and no run of * or _ that could close emphasis by the flanking rules (isolated runs, intraword underscores,
    runs that can only open): however many runs, [ ![ and ] it holds, the delimiter scanner ends with no match (an invariant
    of its loop), every regex-defined span token of the configuration needs a character the text lacks (so `a < b` with
@@ -132,7 +132,7 @@ Print Assumptions C14_scanner_finds_nothing.
 
 Theorem C14_inert_hypotheses_hold :
   let l := $"so 2 * 3 = 6 and snake_case stays," in
-  let ls := [$"a [b] c, ![d], e] and [f *"; $"then x < y _ z and **open"; $"f(x)[i] = a_b * c_d"] in
+  let ls := [$"a [b] c, ![d], e] and [f *"; $"then x < y _ z and **open"; $"f(x)[i] = a_b * c_d"; $"AT&T & co"] in
   inert_paragraph_b l ls = true /\
   forallb (fun c => lacks_nl_config c (join [10] (l :: ls))) [cfg_html; cfg_html_nohtml; cfg_markdown; cfg_latex; cfg_mathjax; cfg_default] = true /\
   inert_paragraph_b ($"a *b") [$"c* d"] = false /\ inert_paragraph_b ($"a [b](c)") [$"d"] = false.
